@@ -234,6 +234,9 @@ def mode_total():
                    backend='engine', function='diskcache.core', detail=None if ok else repr(modes))]
 
 
+ALWAYS_STANDIN = True       # the value corpus (incl. subclass instances, which the symbolic classes do not split out) runs natively on every change
+
+
 def tasks(tier):
     ts = []
     for kind in ('Disk', 'JSONDisk'):
